@@ -256,3 +256,4 @@ func verifPar(a, b func()) {
 	}
 }
 func verifResetLocks() {}
+func verifLockHookFrom(n int) {}
